@@ -10,7 +10,10 @@ case = {"keep": int, "cycleP": ticks, "fsize": bytes, "flushP": ticks (>= 8), "r
         "crash": None | k              the last process dies (os._exit) just before its k-th op
         "crash_rename": None | n       ... or inside its n-th os.rename call (before / after it: "when")
         "big": bool                    long record payloads (forces Python's buffer to spill)
-        "fail_rename": None | N        fault injection: the N-th os.rename call of the run raises OSError}
+        "fail_rename": None | N        fault injection: the N-th os.rename call of the run raises OSError
+        "fail_open": None | J          fault injection: the J-th ocfn(path, 'w+') (creation of the new main file
+                                       in Log.cycle) raises IOError; an exception leaving logger.runner.send is
+                                       recorded in result["surfaced"] and ends the run}
 op   = ["tick", d] | [ctl, n, wants]   ctl = start|run|stop; n = elements queued on a streak log before the
                                        control; wants[j] = update the share of update/change log j first
 time unit = 1/8 s.
@@ -137,6 +140,9 @@ class Spy(object):
         self.cycles = []
         self.renames = 0
         self.fail_rename = None        # the N-th os.rename call raises OSError (injected fault)
+        self.fail_open = None          # the J-th ocfn(.., 'w+') raises IOError (injected fault)
+        self.opens = 0
+        self.surfaced = None           # {"op": k, "exc": name, "nw_before": [...]} when an exception left the runner
         self.overwrites = []           # renames that overwrote a NON-oldest copy holding records: [log, name, ids]
         self.legit_dropped = None      # per log: highest record id discarded by overwriting the OLDEST copy
         self.rules = []
@@ -175,6 +181,7 @@ def run_proc(case, ops, po, prefix, t0, spy, crash_at=None):
             store.advanceStamp(op[1] * DT)
             continue
         p = po[k]
+        nw_before = list(spy.nw)
         for j, act in enumerate(p["acts"]):
             if act is None:
                 continue
@@ -186,7 +193,11 @@ def run_proc(case, ops, po, prefix, t0, spy, crash_at=None):
             else:
                 shares[j].update(value=payload(act[1], big))
             spy.nw[j] += len(p["ids"][j])
-        logger.runner.send({"start": globaling.START, "run": globaling.RUN, "stop": globaling.STOP}[op[0]])
+        try:
+            logger.runner.send({"start": globaling.START, "run": globaling.RUN, "stop": globaling.STOP}[op[0]])
+        except Exception as ex:      # the failure surfaces: the runner is dead, the logger ABORTED
+            spy.surfaced = {"op": k, "exc": type(ex).__name__, "nw_before": nw_before}
+            break
     if crash_at is not None and crash_at >= len(ops):
         os._exit(0)
     logger.close()
@@ -269,11 +280,22 @@ def install_spies(spy):
         spy.cycles.append([spy.index.get(self.name), size, before, False])
         return real_cycle(self, size=size)
 
+    real_ocfn = logging.ocfn
+
+    def ocfn(filename, openMode='r+', binary=False):
+        if openMode == 'w+':
+            spy.opens += 1
+            if spy.fail_open is not None and spy.opens == spy.fail_open:
+                raise IOError(24, "injected open failure", filename)
+        return real_ocfn(filename, openMode, binary)
+
     os.rename, logging.Log.cycle = rename, cycle
+    logging.ocfn = ocfn
     logging.Log.flush, logging.Logger.flush = lflush, gflush
 
     def undo():
         os.rename, logging.Log.cycle = real_rename, real_cycle
+        logging.ocfn = real_ocfn
         logging.Log.flush, logging.Logger.flush = real_lflush, real_gflush
     return undo
 
@@ -334,6 +356,7 @@ def run_case(case, workdir, child=False):
     spy.keep = case["keep"]
     spy.legit_dropped = [-1] * len(rules)
     spy.fail_rename = case.get("fail_rename")
+    spy.fail_open = case.get("fail_open")
     undo = install_spies(spy)
     pl = plan(case)
     try:
@@ -348,9 +371,12 @@ def run_case(case, workdir, child=False):
                 for j in range(len(rules)):
                     os.write(spy.side, b"L %d %d\n" % (j, spy.nw[j]))
             t = run_proc(case, ops, pl[i], prefix, t, spy, crash_at=case.get("crash") if (last and child) else None)
+            if spy.surfaced:
+                break
     finally:
         undo()
     return {"files": read_files(case, prefix), "sizes": sizes_of(pl), "hsz": HSZ, "nwritten": list(spy.nw),
+            "surfaced": spy.surfaced, "opens": spy.opens,
             "spy": {"flushed": spy.flushed, "cycles": spy.cycles, "rot_at": spy.rot_at,
                     "overwrites": spy.overwrites, "legit_dropped": spy.legit_dropped, "renames": spy.renames}}
 
